@@ -7,6 +7,7 @@ import (
 	"fmt"
 	"strconv"
 	"strings"
+	"sync"
 	"testing"
 	"time"
 
@@ -14,6 +15,7 @@ import (
 	"github.com/bluenviron/gortsplib/v5/pkg/format"
 	"github.com/pion/rtp"
 
+	"github.com/bluenviron/mediamtx/internal/conf"
 	"github.com/bluenviron/mediamtx/internal/logger"
 	"github.com/bluenviron/mediamtx/internal/unit"
 	"github.com/bluenviron/mediamtx/internal/verifutil"
@@ -44,6 +46,163 @@ type verifC23State struct {
 }
 
 var verifC23 *verifC23State
+
+// ---- always-available streams: several sub streams over the life of one stream ----
+//
+// The offline filler is paced by the wall clock, so these histories are not predicted by the model; every
+// unit the reader receives is reported (its PTS as delivered and seq/timestamp/length of its packets) and the
+// life-of-stream spec is evaluated on them: one SSRC, consecutive sequence numbers and ONE constant
+// `timestamp - uint32(unit PTS)` from the first filler unit to the last publisher unit.
+
+type verifC23AA struct {
+	codec string
+	strm  *Stream
+	rd    *Reader
+	pub   *SubStream
+	mu    sync.Mutex
+	units []string
+	total int
+}
+
+var verifC23aa *verifC23AA
+
+func verifC23AAClose() {
+	a := verifC23aa
+	if a != nil {
+		a.strm.RemoveReader(a.rd)
+		a.strm.Close()
+	}
+	verifC23aa = nil
+}
+
+func verifC23AATrack(codec string) conf.AlwaysAvailableTrack {
+	switch codec {
+	case "g711":
+		return conf.AlwaysAvailableTrack{Codec: conf.CodecG711, SampleRate: 8000, ChannelCount: 1, MULaw: true}
+	case "lpcm":
+		return conf.AlwaysAvailableTrack{Codec: conf.CodecLPCM, SampleRate: 48000, ChannelCount: 2}
+	case "opus":
+		return conf.AlwaysAvailableTrack{Codec: conf.CodecOpus}
+	default:
+		return conf.AlwaysAvailableTrack{Codec: conf.CodecH264}
+	}
+}
+
+func verifC23AAInFormat(codec string) format.Format {
+	switch codec {
+	case "g711":
+		return &format.G711{PayloadTyp: 0, MULaw: true, SampleRate: 8000, ChannelCount: 1}
+	case "lpcm":
+		return &format.LPCM{PayloadTyp: 96, BitDepth: 16, SampleRate: 48000, ChannelCount: 2}
+	case "opus":
+		return &format.Opus{PayloadTyp: 96, ChannelCount: 2}
+	default:
+		return &format.H264{PayloadTyp: 96, PacketizationMode: 1}
+	}
+}
+
+// take what the reader got so far; wait until at least `min` units are there (or the deadline passes)
+func (a *verifC23AA) take(min int, d time.Duration) string {
+	dl := time.Now().Add(d)
+	for {
+		a.mu.Lock()
+		n := len(a.units)
+		a.mu.Unlock()
+		if n >= min || time.Now().After(dl) {
+			break
+		}
+		time.Sleep(500 * time.Microsecond)
+	}
+	a.mu.Lock()
+	defer a.mu.Unlock()
+	if len(a.units) < min {
+		return "timeout"
+	}
+	out := "-"
+	if len(a.units) != 0 {
+		out = strings.Join(a.units, "|")
+	}
+	a.units = nil
+	return "un=" + out
+}
+
+func verifC23AAExec(f []string) string {
+	switch f[0] {
+	case "reset":
+		verifC23Close()
+		verifC23AAClose()
+		a := &verifC23AA{codec: f[1]}
+		a.strm = &Stream{
+			AlwaysAvailable:       true,
+			AlwaysAvailableTracks: []conf.AlwaysAvailableTrack{verifC23AATrack(a.codec)},
+			WriteQueueSize:        512,
+			RTPMaxPayloadSize:     verifutil.Atoi(f[2]),
+			ReplaceNTP:            true,
+			Parent:                verifC23Log{},
+		}
+		if err := a.strm.Initialize(); err != nil {
+			return "err-init"
+		}
+		a.rd = &Reader{Parent: verifC23Log{}}
+		m := a.strm.OrigDesc.Medias[0]
+		a.rd.OnData(m, m.Formats[0], func(u *unit.Unit) error {
+			ssrc := uint32(0)
+			pk := "-"
+			if len(u.RTPPackets) != 0 {
+				ssrc = u.RTPPackets[0].SSRC
+				s := make([]string, len(u.RTPPackets))
+				for i, p := range u.RTPPackets {
+					s[i] = fmt.Sprintf("%d:%d:%d", p.SequenceNumber, p.Timestamp, len(p.Payload))
+					if p.SSRC != ssrc {
+						s[i] += "x" // unparsable on purpose: SSRC differs inside a unit
+					}
+				}
+				pk = strings.Join(s, "/")
+			}
+			a.mu.Lock()
+			a.units = append(a.units, fmt.Sprintf("%d,%d,%s", u.PTS, ssrc, pk))
+			a.total++
+			a.mu.Unlock()
+			return nil
+		})
+		a.strm.AddReader(a.rd)
+		verifC23aa = a
+		return "ok"
+	}
+	a := verifC23aa
+	if a == nil {
+		return "bad-op"
+	}
+	switch f[0] {
+	case "aafill":
+		return a.take(verifutil.Atoi(f[1]), 5*time.Second)
+	case "aapub":
+		in := verifC23AAInFormat(a.codec)
+		a.pub = &SubStream{
+			Stream:        a.strm,
+			InDesc:        &description.Session{Medias: []*description.Media{{Type: a.strm.OrigDesc.Medias[0].Type, Formats: []format.Format{in}}}},
+			UseRTPPackets: false,
+		}
+		if err := a.pub.Initialize(); err != nil {
+			return "err-subinit"
+		}
+		return a.take(0, 0)
+	case "aau":
+		if a.pub == nil {
+			return "bad-op"
+		}
+		m := a.pub.InDesc.Medias[0]
+		a.pub.WriteUnit(m, m.Formats[0], &unit.Unit{PTS: verifutil.AtoI64(f[1]), Payload: verifC23MakePayload(a.codec, f[2])})
+		return a.take(1, 5*time.Second)
+	case "aaoff":
+		a.pub = nil
+		if err := a.strm.StartOfflineSubStream(); err != nil {
+			return "err-offline"
+		}
+		return a.take(0, 0)
+	}
+	return "bad-op"
+}
 
 func verifC23Format(codec, mode string) format.Format {
 	switch codec {
@@ -260,8 +419,12 @@ func verifC23Answer(st *verifC23State, u *unit.Unit, generated bool) string {
 
 func verifC23Exec(op string) (res string) {
 	f := strings.Fields(op)
+	if (f[0] == "reset" && len(f) > 3 && f[3] == "aa") || strings.HasPrefix(f[0], "aa") {
+		return verifC23AAExec(f)
+	}
 	switch f[0] {
 	case "reset":
+		verifC23AAClose()
 		verifC23Close()
 		st := &verifC23State{codec: f[1], max: verifutil.Atoi(f[2]), mode: f[3]}
 		st.forma = verifC23Format(st.codec, st.mode)
@@ -484,7 +647,49 @@ func verifC23GenPayload(r *verifutil.Rand, codec string, max int) string {
 	}
 }
 
+// offline filler -> publisher -> filler again -> second publisher (-> filler)
+func verifC23GenAA(r *verifutil.Rand) []string {
+	codec := []string{"g711", "g711", "opus", "lpcm", "h264"}[r.Intn(5)]
+	max := []int{200, 400, 1200, 1450}[r.Intn(4)]
+	ops := []string{fmt.Sprintf("reset %s %d aa", codec, max)}
+	pay := func() string {
+		switch codec {
+		case "g711":
+			return verifutil.Hex(r.Bytes(1 + r.Intn(3*max)))
+		case "lpcm":
+			return verifutil.Hex(r.Bytes(4 * (1 + r.Intn(max))))
+		case "opus":
+			return verifC23GenPayload(r, "opus", max)
+		default:
+			k := 1 + r.Intn(3)
+			parts := make([]string, k)
+			for i := range parts {
+				b := verifC23NALU264(r, verifC23Size(r, max))
+				b[0] = []byte{1, 5, 6}[r.Intn(3)] | 0x40 // nothing the remuxer drops
+				parts[i] = verifutil.Hex(b)
+			}
+			return strings.Join(parts, ",")
+		}
+	}
+	ops = append(ops, fmt.Sprintf("aafill %d", 1+r.Intn(2)))
+	rounds := 2 + r.Intn(2)
+	for k := 0; k < rounds; k++ {
+		ops = append(ops, "aapub")
+		pts := int64(r.Intn(100000))
+		for j := 0; j < 1+r.Intn(3); j++ {
+			pts += int64(1 + r.Intn(5000))
+			ops = append(ops, fmt.Sprintf("aau %d %s", pts, pay()))
+		}
+		ops = append(ops, "aaoff", "aafill 1")
+	}
+	return ops
+}
+
 func verifC23Gen(r *verifutil.Rand, i int, thorough bool) []string {
+	// wall-clock paced (≈ 0.3 s each): every 15th history in the quick tier, every 40th in the thorough one
+	if (!thorough && i%15 == 7) || (thorough && i%40 == 7) {
+		return verifC23GenAA(r)
+	}
 	codecs := []string{"h264", "h264", "h264", "m4v", "latm", "h265", "av1", "av1", "vp8", "opus", "g711", "lpcm", "klv"}
 	codec := codecs[r.Intn(len(codecs))]
 	max := verifC23Max(r)
@@ -579,6 +784,18 @@ func verifC23Gen(r *verifutil.Rand, i int, thorough bool) []string {
 
 func verifC23Class(op, impl string) string {
 	f := strings.Fields(op)
+	if strings.HasPrefix(f[0], "aa") || (f[0] == "reset" && f[3] == "aa") {
+		c := "aa/" + f[0]
+		if f[0] == "reset" {
+			c += "/" + f[1]
+		}
+		if strings.HasPrefix(impl, "un=") && impl != "un=-" {
+			c += "/units"
+		} else if !strings.HasPrefix(impl, "un=") && impl != "ok" {
+			c += "/" + impl
+		}
+		return c
+	}
 	if f[0] == "reset" {
 		return "reset/" + f[1] + "/" + f[3]
 	}
@@ -605,6 +822,7 @@ func verifC23Class(op, impl string) string {
 
 func TestVerifC23(t *testing.T) {
 	defer verifC23Close()
+	defer verifC23AAClose()
 	verifutil.Main(t, &verifutil.Harness{
 		ID: "C23", Exec: verifC23Exec, Gen: verifC23Gen, Quick: 900, Thorough: 12000,
 		Class:      verifC23Class,
